@@ -274,6 +274,12 @@ pub proof fn lemma_lower_seq_idem(s: Seq<char>)
     }
 }
 
+// A-validated per char (exhaustive over all scalar values): lower-casing never yields the empty string
+#[verifier::external_body]
+pub proof fn axiom_lower_nonempty(c: char)
+    ensures u_to_lower(c).len() > 0
+{ }
+
 // ---- theory: split.rs ----
 // ---- splitting vocabulary (defined recursively, so the lemmas below are proved, not assumed) ----
 pub open spec fn last_index_of(s: Seq<char>, c: char) -> int decreases s.len()
